@@ -427,7 +427,8 @@ def meter(rng: random.Random, kind, n=None, noise=None):
 KINDS = ["heating", "cooling", "both", "flat", "weekday_weekend", "seasonal", "heat_wave", "cold_snap", "outliers", "smooth", "drifting"]
 
 
-def fit_real(profile, df):
+def fit_real(profile, df, model=None):
+    """fit a real model on the meter `df`; `model`: an already used model object to fit again (None = a new one)"""
     from opendsm.eemeter.models.daily.model import DailyModel
     from opendsm.eemeter.models.daily.data import DailyBaselineData
     from opendsm.eemeter.models.billing.model import BillingModel
@@ -438,9 +439,9 @@ def fit_real(profile, df):
             reads.iloc[-1] = np.nan
             hourly_T = df["temperature"].resample("h").ffill()
             data = BillingBaselineData.from_series(reads, hourly_T, is_electricity_data=True)
-            return BillingModel().fit(data, ignore_disqualification=True)
+            return (model if model is not None else BillingModel()).fit(data, ignore_disqualification=True)
         data = DailyBaselineData(df, is_electricity_data=True)
-        m = DailyModel(model="legacy") if profile == "legacy" else DailyModel()
+        m = model if model is not None else (DailyModel(model="legacy") if profile == "legacy" else DailyModel())
         return m.fit(data, ignore_disqualification=True)
 
 
